@@ -65,7 +65,7 @@ Section Returns.
       rewrite Forall_forall in Hin. specialize (Hin _ Hp). simpl in Hin.
       destruct (rect_pick n R i j Hrect (proj1 Hin) (proj2 Hin)) as [r Hr]. rewrite Hr. discriminate.
     - exfalso. unfold solveZ in ES.
-      apply (munkres_terminates n n (scaled_matrix (cost_matrix R)) D Hn Hn (rect_scaled _ _ _ HRC) Hbound).
+      apply (munkres_terminates_bounded n n (scaled_matrix (cost_matrix R)) D Hn Hn (rect_scaled _ _ _ HRC) Hbound).
       + rewrite Nat.max_id. exact HB.
       + exact ES.
   Qed.
